@@ -189,12 +189,13 @@ def judge(ctx, mon, g, pkeys, case, inp, o, key, tree_limit):
         chart = cfg.Chart(g, inp, skip=cfg.skip_none)
         T = chart.count()
         ctx.count("count.compared_with_reference")
-        if T != cfg.INF and T != n and not dups:
-            got_packed, _ = glrobs.forest_packed(f, pkeys)
-            ref_named = set((k, g.prods[pi], spans) for (k, pi, spans) in chart.packed())
-            if not (ref_named - got_packed):
-                ctx.violation("count-differs-from-reference", case, "len(forest)=%s, the input has %s derivations and no packed alternative is missing or duplicated" % (n, T))
-                return
+        if T != cfg.INF and n > T and not dups:
+            # more trees than derivations exist although no link holds identical alternatives
+            ctx.violation("count-exceeds-number-of-derivations", case, "len(forest)=%s, the input has only %s derivations and no link holds identical alternatives" % (n, T))
+            return
+        if T != cfg.INF and n < T:
+            # fewer trees than derivations: lost derivations are C02's business
+            ctx.count("count.below_reference_not_judged_here")
     # --- ambiguities --------------------------------------------------------
     amb_distinct, amb_raw = glrobs.ambiguous_links(f)
     try:
